@@ -19,6 +19,8 @@ CONSTANTS
     MaxPanics = 0
     FixF2 = TRUE
     FixF3 = TRUE
+    InitEnc = "proto"
+    MaxMigrations = 0
 VIEW view
 INVARIANTS
     TypeOK
@@ -33,4 +35,6 @@ INVARIANTS
     ModOnlyPanicking
     ModSkippedEverywhere
     ModProgress
+    EncUniform
+    SnapshotsReadable
 CHECK_DEADLOCK FALSE
